@@ -107,6 +107,8 @@ partial def canon : GoVal → String
 def handleEval (T : Tables) (line : String) : String :=
   -- map keys that are not strings (nil, int, bool keys of a map[any]any) are written as "~…": not representable in GoVal
   if (line.splitOn "\"~").length > 1 then "UNMODELLED" else
+  -- values that contain themselves ("t":"cyc"): the model's values are finite trees
+  if (line.splitOn "\"t\":\"cyc\"").length > 1 then "UNMODELLED" else
   match Json.parse line with
   | .error e => s!"BADJSON {e}"
   | .ok j =>
